@@ -2151,16 +2151,17 @@ void SVDlapack(matrix *m_, matrix *u, matrix *s, matrix *vt)
     return;
   }
 
-  /* s are the eigenvectors singular values diagonal matrix*/
-  ResizeMatrix(s, n, n);
-  for(i = 0; i < m_->col; i++){
+  /* s are the eigenvectors singular values diagonal matrix: min(m,n) of them */
+  k = (m < n) ? m : n;
+  ResizeMatrix(s, k, k);
+  for(i = 0; i < k; i++){
     s->data[i][i] = s_[i];
   }
   //conv2matrix(1, n, s_, 1, s);
   /* u is left singular vectors */
-  conv2matrix(m, n, u_, ldu, u);
+  conv2matrix(m, k, u_, ldu, u);
   /*vt is the right singular vectors */
-  conv2matrix(m, n, vt_, ldvt, vt);
+  conv2matrix(k, n, vt_, ldvt, vt);
   /* Free workspace */
   xfree(work);
   xfree(a);
